@@ -25,3 +25,4 @@ import SpoxModel.Props.C13
 #print axioms C13.broadcast_comm
 #print axioms C13.type_layer_inventory
 #print axioms C13.broadcast_rank
+#print axioms C13.subtype_symm
